@@ -11,6 +11,6 @@ case "$ch" in
 esac
 git -C $W diff --stat | tail -1
 for p in "$@"; do
-  (cd /verif && VERIF_REPO=$W python3 run.py check $p ${TIER:+--tier $TIER} | grep -E "^(VIOLATION|INCONCLUSIVE|OK|KNOWN)" | cut -c1-300 | head -${LINES_MAX:-4}); true
+  (cd /verif && VERIF_BUILD=/tmp/rw_build VERIF_EVIDENCE=/tmp/rw_build/evidence VERIF_REPO=$W python3 run.py check $p ${TIER:+--tier $TIER} | grep -E "^(VIOLATION|INCONCLUSIVE|OK|KNOWN)" | cut -c1-300 | head -${LINES_MAX:-4}); true
 done
 git -C $W checkout -q -- .
